@@ -38,7 +38,7 @@ def run_property(pid, tier):
     os.environ["VERIF_TIER"] = tier
     scratch = C.scratch_dir(pid)
     known = C.load_known_findings()
-    obligations, failed, undecided, supporting = [], [], [], []
+    obligations, failed, undecided, supporting, other_props_failed = [], [], [], [], []
     functions, types, trusted, rewrites = [], [], [], {}
     hints_removed = []
     unit_summ = []
@@ -76,6 +76,10 @@ def run_property(pid, tier):
             f = dict(f)
             f["unit"] = unit
             f["verifier_output"] = _verifier_excerpt(r.raw_err, f)
+            m = re.match(r"(C\d\d)\.", f["id"])
+            if m and m.group(1) != pid and m.group(1) in P.claimed() and unit in P.claimed()[m.group(1)].get("verus", []):
+                other_props_failed.append({"id": f["id"], "reported_under": m.group(1)})   # a clause of another property: decided and reported by that property's check
+                continue
             failed.append(f)
         for fn in r.functions:
             functions.append({k: fn.get(k) for k in ("path", "impl", "trait", "name", "lines", "sha256", "rewrites", "verified", "assumed_contract", "note")} | {"unit": unit, "backend": "verus"})
@@ -201,6 +205,7 @@ def run_property(pid, tier):
             "supporting_obligations_of_other_properties_in_the_same_units": len(supporting),
             "hints_removed_this_run": hints_removed,
             "canary_rejected": canary_ok,
+            "failed_clauses_of_other_properties_in_shared_units": other_props_failed,
             "known_findings_open": [{"id": f["id"], "what_fails": k["what_fails"]} for f, k in known_hits],
             "failed_obligations": [{"id": f["id"], "where": f.get("where"), "message": f.get("message"), "known_finding": known_match(known, f["id"]) is not None} for f in failed],
             "undecided": undecided,
